@@ -372,6 +372,67 @@ func setConc(args []string) int {
 		}
 	}
 
+	// forced schedule: a Replace that keeps its elements is held between clearing the set and adding the new elements (hook
+	// set-replace-cleared) while another caller deletes / adds / looks up / toggles an element (mutators have to wait for
+	// the Replace; a reader may see the intermediate contents); the Replace goes on.
+	for _, second := range []string{"Delete", "Add", "Has", "Toggle"} {
+		lg := &hlog{}
+		s := ds.NewSet[int]()
+		for _, x := range []int{1, 2} {
+			lg.add(core.Ev{"ev": "inv", "t": 6, "op": "Add", "a": x})
+			lg.add(core.Ev{"ev": "ret", "t": 6, "res": s.Add(x)})
+		}
+		gate := sched.NewGate()
+		ds.VerifHook = func(p string) {
+			if p == "set-replace-cleared" {
+				gate.Wait(p)
+			}
+		}
+		gate.Hold("set-replace-cleared")
+		chs := []chan struct{}{make(chan struct{}), make(chan struct{})}
+		go func() {
+			defer close(chs[0])
+			lg.add(core.Ev{"ev": "inv", "t": 1, "op": "Replace", "a": core.Seq([]int{1, 2})})
+			r := s.Replace(mkSet(1, 2))
+			lg.add(core.Ev{"ev": "ret", "t": 1, "res": sortedInts(r)})
+		}()
+		for i := 0; i < 2000 && gate.Parked("set-replace-cleared") == 0; i++ {
+			time.Sleep(time.Millisecond)
+		}
+		go func() {
+			defer close(chs[1])
+			switch second {
+			case "Delete":
+				lg.add(core.Ev{"ev": "inv", "t": 2, "op": "Delete", "a": 1})
+				lg.add(core.Ev{"ev": "ret", "t": 2, "res": s.Delete(1)})
+			case "Add":
+				lg.add(core.Ev{"ev": "inv", "t": 2, "op": "Add", "a": 2})
+				lg.add(core.Ev{"ev": "ret", "t": 2, "res": s.Add(2)})
+			case "Has":
+				lg.add(core.Ev{"ev": "inv", "t": 2, "op": "Has", "a": 1})
+				lg.add(core.Ev{"ev": "ret", "t": 2, "res": s.Has(1)})
+			case "Toggle":
+				lg.add(core.Ev{"ev": "inv", "t": 2, "op": "Toggle", "a": 1})
+				m := s.Compute(func(cur ds.ReadableSet[int]) ds.SetMutations[int] {
+					if cur.Has(1) {
+						return ds.NewSetMutations[int]().WithDeletedElements(mkSet(1))
+					}
+					return ds.NewSetMutations[int]().WithAddedElements(mkSet(1))
+				})
+				lg.add(core.Ev{"ev": "ret", "t": 2, "res": core.Ev{"added": sortedInts(m.AddedElements()), "deleted": sortedInts(m.DeletedElements())}})
+			}
+		}()
+		select {
+		case <-chs[1]:
+		case <-time.After(50 * time.Millisecond): // (a mutator rightly waits for the Replace to finish)
+		}
+		gate.ReleaseAll()
+		hung := waitAll(chs, 3*time.Second)
+		hangs += len(hung)
+		emit(enc, lg, s, hung, true)
+		ds.VerifHook = nil
+	}
+
 	// linearizability histories
 	for h := 0; h < *hist; h++ {
 		if h%5 == 4 {
